@@ -41,7 +41,7 @@ impl Prop for P {
         }
     }
     fn cases(tier: Tier) -> u64 {
-        tier.pick(200_000, 2_000_000)
+        tier.pick(200_000, 500_000)
     }
     fn strategy(tier: Tier) -> BoxedStrategy<Case> {
         let anyc = (any_input(), dec_sched(), ring_bits_strategy(), any::<u32>(), prop_oneof![Just(0u64), any::<u64>()]).prop_map(|(input, sched, ring_bits, ring_start, fill_seed)| Case::Any { input, sched, ring_bits, ring_start, fill_seed });
